@@ -519,7 +519,7 @@ func main() {
 			if t == "thorough" {
 				return 3600
 			}
-			return 420
+			return 900
 		},
 		Finish: func(t string, agg *explore.Aggregate) ([]explore.Violation, string) {
 			if agg.Stats["dead_reports_confirmed_unrefuted"] < 100 {
